@@ -3,5 +3,6 @@ CONSTANTS
   MaxGrid = 10
   MaxProc = 8
   SharedSet <- BothShared
+  SerialRule = "bins"
 INVARIANTS Covers Once SquareOffDiagonal ConflictFree BinsMonotone PassCount Emit
 CHECK_DEADLOCK FALSE
